@@ -4,7 +4,7 @@ SPEC = dict(
     id="C16", corr="Corr.C16", driver="h_c16", overlay=False,
     targets=["Properties/C16.vo", "Corr/C16.vo"],
     args=lambda tier, seed: (["-seed", seed, "-n", 3000, "-exhbytes", 2, "-exhlen", 1] if tier == "quick"
-                             else ["-seed", seed, "-n", 60000, "-exhbytes", 3, "-exhlen", 3]),
+                             else ["-seed", seed, "-n", 30000, "-exhbytes", 3, "-exhlen", 3]),
     search_args=lambda seed: ["-seed", seed, "-n", 6000],
     shard=400,
     patterns={},
@@ -17,3 +17,12 @@ SPEC = dict(
                  "byte arrays are not written while views of them are observed (the package itself never writes bytes; Prependable regions are written by the caller and modelled)",
                  "int is unbounded (no 64-bit overflow of sizes)"],
 )
+
+
+def _run(spec, tier, seed):
+    # larger shards in the thorough tier: fewer coqc start-ups (about 1 GB of memory per shard)
+    import vlib
+    return vlib.standard_check(dict(spec, shard=400 if tier == "quick" else 800), tier, seed)
+
+
+SPEC["run"] = _run
